@@ -501,6 +501,7 @@ theorem inv_stepCore {cfg : Cfg} {c : Conn} (h : Inv cfg c) (e : Ev) : Inv cfg (
           have : ¬ (call == x) = true := by simpa using fun e => hx e.symm
           simp [this]; omega
       · exact h
+  | tick => exact h
   | pause => simp only [stepCore]; exact inv_flags h rfl rfl rfl (by simpa [Live] using h.live) (by simpa [Idle] using h.idle)
   | resume =>
     simp only [stepCore]
@@ -711,6 +712,7 @@ def Ev.benign : Ev → Bool
   | .complete _ o => o != .unpicklable
   | .pause => true
   | .resume => true
+  | .tick => true
   | _ => false
 
 /-- Nothing that could set the stop event is pending. -/
@@ -783,6 +785,7 @@ theorem calm_step {cfg : Cfg} {c : Conn} (h : Calm c) (e : Ev) (he : e.benign = 
       · refine calm_complete (c := _) ?_ _ _ ho
         exact ⟨h1, h2, h3, h4⟩
       · exact ⟨h1, h2, h3, h4⟩
+  | tick => exact ⟨h1, h2, h3, h4⟩
   | pause => exact ⟨h1, h2, h3, h4⟩
   | resume =>
     simp only [stepCore]
@@ -889,6 +892,7 @@ def Ev.harmless : Ev → Bool
   | .pause => true
   | .resume => true
   | .lose _ _ => true
+  | .tick => true
   | _ => false
 
 /-- `serve()` is not going to raise and no handler was cancelled. -/
@@ -974,6 +978,7 @@ theorem quiet_step {cfg : Cfg} {c : Conn} (h : Quiet c) (e : Ev) (he : e.harmles
       · refine quiet_complete (c := _) ?_ _ _ ho
         exact ⟨h1, h2, h3, h4⟩
       · exact ⟨h1, h2, h3, h4⟩
+  | tick => exact ⟨h1, h2, h3, h4⟩
   | pause => exact ⟨h1, h2, h3, h4⟩
   | resume =>
     simp only [stepCore]
@@ -1022,6 +1027,78 @@ theorem step_complete_writes {cfg : Cfg} {c : Conn} (h : Inv cfg c) (k : Nat) (o
   rw [settleRecv_sent]
   simp only [stepCore, hk, hin, if_true]
   exact complete_writes _ call o ha hb (h.idle.1 hb) hl
+
+
+/-! ## Received calls stay received -/
+
+/-- Received calls are never forgotten. -/
+theorem recvd_mono_sendLoop (n : Nat) (c : Conn) : (sendLoop n c).recvd = c.recvd := (same_sendLoop n c).recvd
+
+theorem recvd_mono_step (cfg : Cfg) (c : Conn) (e : Ev) (x : Call) (hx : x ∈ c.recvd) : x ∈ (step cfg c e).recvd := by
+  have hsr : ∀ c', (settleRecv c').recvd = c'.recvd := by intro c'; unfold settleRecv; split <;> rfl
+  have hcomp : ∀ c' call o, (complete c' call o).recvd = c'.recvd := fun c' call o => (grow_complete c' call o).1
+  have hstop : ∀ c', (stopNow c').recvd = c'.recvd := fun c' => (same_runSend _).recvd
+  have hframe : ∀ c' f, x ∈ c'.recvd → x ∈ (stepFrame cfg c' f).recvd := by
+    intro c' f h
+    unfold stepFrame
+    split
+    · exact h
+    · cases f with
+      | close id => simp only; rw [hstop]; exact h
+      | notCall id => exact h
+      | call id name b =>
+        simp only
+        cases callDecision cfg.table name b with
+        | invoke => simp [h]
+        | unknown | notAllowed | badArgs => simp only; rw [hcomp]; simp [h]
+  unfold step
+  rw [hsr]
+  cases e with
+  | frame f => exact hframe c f hx
+  | badHeader => simp only [stepCore]; split <;> exact hx
+  | bytes b =>
+    simp only [stepCore]
+    split
+    · exact hx
+    · have : ∀ (fs : List Frame) (c0 : Conn), x ∈ c0.recvd → x ∈ (fs.foldl (stepFrame cfg) c0).recvd := by
+        intro fs
+        induction fs with
+        | nil => intro c0 h; exact h
+        | cons f fs ih => intro c0 h; exact ih _ (hframe c0 f h)
+      have h1 := this ((feed c.dec b).1.map cfg.frameOf) { c with dec := (feed c.dec b).2 } hx
+      split
+      · exact h1
+      · exact h1
+  | eof => simp only [stepCore]; split; rw [hstop]; exact hx; exact hx
+  | stop => simp only [stepCore]; split; exact hx; rw [hstop]; exact hx
+  | complete k o =>
+    simp only [stepCore]
+    split
+    · exact hx
+    · split
+      · rw [hcomp]; exact hx
+      · exact hx
+  | tick => exact hx
+  | pause => exact hx
+  | resume =>
+    simp only [stepCore]
+    split
+    · split
+      · exact hx
+      · rw [(same_runSend _).recvd]; exact hx
+    · exact hx
+  | lose k s =>
+    simp only [stepCore]
+    split
+    · split <;> exact hx
+    · exact hx
+
+theorem recvd_mono_run (cfg : Cfg) (evs : List Ev) (c : Conn) (x : Call) (hx : x ∈ c.recvd) :
+    x ∈ (run cfg c evs).recvd := by
+  unfold run
+  induction evs generalizing c with
+  | nil => exact hx
+  | cons e es ih => exact ih _ (recvd_mono_step cfg c e x hx)
 
 
 end StepupModel.P.Rpc
